@@ -233,6 +233,7 @@ func (g *Gen) enterLoop(li *loopInfo, ins []inEdge, fwdPreds []*ssa.BasicBlock) 
 			ctrs = append(ctrs, c)
 		}
 	}
+	g.inferPrefixInvariants(li, entryEnv, names)
 	// loop variables named explicitly by the contract are visible to clauses
 	// evaluated inside the loop body (call-site, store-site obligations)
 	if li.spec != nil {
@@ -521,9 +522,16 @@ func (g *Gen) loopMods(li *loopInfo) (comps []string, ghosts []string) {
 	}
 	// make sure all components exist
 	for _, c := range sortedKeys(cs) {
-		if _, ok := g.comps[c]; !ok {
+		name := c
+		if g.inlinePrefix != "" && strings.HasPrefix(c, "local.") && !strings.HasPrefix(c, "local.in") {
+			// the private memory of this inlined call carries the call's prefix
+			name = "local." + g.inlinePrefix + strings.TrimPrefix(c, "local.")
+			delete(cs, c)
+			cs[name] = true
+		}
+		if _, ok := g.comps[name]; !ok {
 			if srt, ok := g.eng.compSorts[c]; ok {
-				g.comp(c, srt(g))
+				g.comp(name, srt(g))
 			}
 		}
 	}
